@@ -357,6 +357,9 @@ func main() {
 	pemLink := filepath.Join(scratch, "int-current.pem")
 	_ = os.Symlink(intPEM, pemLink)
 	rootPEM := pki.WritePEM(filepath.Join(scratch, "root.pem"), w.Root.Cert)
+	// the issuing CA after a key roll-over: same subject name, another key
+	rolled := w.Root.Issue(pki.CertOpts{RawSubject: w.Int.Cert.RawSubject, IsCA: true})
+	rolledPEM := pki.WritePEM(filepath.Join(scratch, "int-rolled.pem"), rolled.Cert)
 	w.CRL.Set("/a.crl", origin.Good(crlDER))
 	w.CRL.Set("/b.crl", origin.Good(crlDER))
 	w.CRL.Set("/bad.crl", origin.Status(500, []byte("down")))
@@ -370,12 +373,12 @@ func main() {
 		"signature_validation_mode":     {"none", "verify_log", "verify"},
 		"crl_urls":                      {urlA, urlA + "|" + urlB},
 		"crl_files":                     {crlFile, crlLink, crlFile + "|" + crlOdd},
-		"trusted_signature_certs_files": {intPEM, pemLink, rootPEM + "|" + intPEM},
+		"trusted_signature_certs_files": {intPEM, pemLink, rootPEM + "|" + intPEM, rolledPEM + "|" + intPEM},
 		"crl_fetch_mode":                {"fetch_actively", "fetch_background"},
 		"crl_cdp_strict":                {"true", "false"},
 		"default_cache_duration":        {"10m", "0s"},
 		"ocsp_aia_strict":               {"true", "false"},
-		"trusted_responder_certs_files": {intPEM, pemLink + "|" + rootPEM},
+		"trusted_responder_certs_files": {intPEM, pemLink + "|" + rootPEM, intPEM + "|" + rolledPEM},
 	}
 	optKeys := make([]string, 0, len(values))
 	for k := range values {
